@@ -161,7 +161,18 @@ func (c *Client) Start(ctx context.Context) {
 
 func (c *Client) handleIncomingDelegation(ctx context.Context, link *protocol.Link, delegation net.Conn) error {
 	hostname := link.GetHostname()
+
+	// resolve the route (and the cached proxy) under the config lock: a configuration change
+	// invalidates proxies before it rebuilds the router, and a connection resolved in between
+	// would re-cache a proxy for the outdated route
+	var proxy *httpProxy
+	c.configMu.RLock()
 	u, ok := c.Configuration.router.Load(hostname)
+	if ok && link.GetAlpn() == protocol.Link_HTTP {
+		proxy = c.getHTTPProxy(ctx, hostname, u)
+	}
+	c.configMu.RUnlock()
+
 	if !ok {
 		c.Logger.Error("Unknown hostname in connection", zap.String("hostname", hostname))
 		delegation.Close()
@@ -175,7 +186,7 @@ func (c *Client) handleIncomingDelegation(ctx context.Context, link *protocol.Li
 
 	switch link.GetAlpn() {
 	case protocol.Link_HTTP:
-		c.getHTTPProxy(ctx, hostname, u).acceptor.Handle(delegation)
+		proxy.acceptor.Handle(delegation)
 
 	case protocol.Link_TCP:
 		c.forwardStream(ctx, hostname, delegation, u)
